@@ -25,7 +25,7 @@ SCALE = 1024          # coefficient tokens handed to the Lean model: coef * SCAL
 SEG_LETTERS = set('CLOVFGJSbrkKxd')
 INV_OPC = {v: k for k, v in nlgen.OPC.items()}
 VARIADIC = ('sum', 'min', 'max')
-N_THEOREMS = 25
+N_THEOREMS = 38
 # vptr excluded: mp's CRTP base constructors downcast `this` before the derived object exists (flat/converter.h:51),
 # which UBSan's vptr check reports on every run; unrelated to this property
 SAN_FLAGS = ('-O1', '-g', '-fsanitize=address,undefined', '-fno-sanitize=vptr', '-fno-sanitize-recover=all')
@@ -969,6 +969,10 @@ OBLIGATION_ORACLE = {
     'C12_gen_objno_used': r'echo:|name:', 'C12_gen_SetObjNo': r'reject:|select:', 'C12_gen_notify': r'echo:|name:',
     'C12_gen_handler_overrides': r'select:|reject:|echo:', 'C12_gen_skel_builder_OnHeader': r'select:|echo:|name:',
     'C12_gen_skel_obj_events': r'select:|echo:|name:',
+    'C12_gen_GetObjNo': r'select:|reject:|echo:', 'C12_gen_BoolOption_SetValue': r'reject:|select:', 'C12_gen_SkipExpr': r'select:|run:abnormal',
+    'C12_gen_caseO_guard': r'select:|run:abnormal', 'C12_gen_segment_slots': r'select:|run:abnormal', 'C12_gen_SetObjNames': r'name:',
+    'C12_gen_skel_caseO': r'select:|run:abnormal', 'C12_gen_skel_caseG': r'select:|run:abnormal', 'C12_gen_skel_delivery': r'select:|echo:',
+    'C12_gen_skel_SetObjNames': r'name:',
 }
 
 
@@ -1000,9 +1004,18 @@ def gen_crosscheck(ck, drv, trdir, cov=False):
         'handler_objno': [dict(f_objno_=r) for r in RAW],
         'handler_multiobj': [dict(f_multiobj_=m, f_objno_=r) for m in B for r in RAW + [INT_MIN]],
         'OnHeader_check': [dict(f_objno_=r, p_h_num_objs=n) for r in RAW for n in [0, 1, 2, 3, 6]],
+        'GetObjNo': [dict(f_objno_=r) for r in RAW],
+        'BoolOption_SetValue': [dict(p_value=v) for v in [-(2 ** 63), -INT_MAX, -2, -1, 0, 1, 2, 3, 256, 2 ** 32, 2 ** 32 + 1, 2 ** 63 - 1]],
     }
+    # generated definitions without a direct call in the grid harness (private nested classes of NLReader, a method of the
+    # model manager): they are compositions of the definitions above, proved so (C12_gen_SkipExpr, ..._slot, ..._guard,
+    # C12_gen_SetObjNames) and exercised end to end by the driver stream
+    NO_GRID = {'ObjHandler_SkipExpr', 'ObjHandler_OnLinearExpr_slot', 'caseO_guard', 'caseO_slot',
+               'SetObjNames_guard', 'SetObjNames_first', 'SetObjNames_end'}
     hin, lin, meta = [], [], []
     for fn, params in sig.items():
+        if fn in NO_GRID:
+            continue
         if fn not in grids:
             ck.add_violation('gen:no-grid-for-%s' % fn, 'generated definition %s has no cross-check grid' % fn, {'function': fn, 'params': params}, found_input=False)
             continue
@@ -1015,7 +1028,7 @@ def gen_crosscheck(ck, drv, trdir, cov=False):
             hin.append(fn + ' ' + ' '.join('%s=%d' % kv for kv in sorted(a.items())))
             lin.append('F %s %s' % (fn, ' '.join(str(a[p]) for p in params)))
             meta.append((fn, a))
-    for fn in grids:
+    for fn in list(grids) + sorted(NO_GRID):
         if fn not in sig:
             ck.add_violation('gen:missing-%s' % fn, 'definition %s was not generated' % fn, {'function': fn}, found_input=False)
     ph = subprocess.run([hexe], input='\n'.join(hin) + '\n', capture_output=True, text=True)
@@ -1040,6 +1053,38 @@ def gen_crosscheck(ck, drv, trdir, cov=False):
 
 # ----------------------------------------------------------------------------- main
 COVERAGE = os.environ.get('VERIF_COVERAGE') == '1'
+
+
+def refine_failing(ck, failing):
+    """Lean reports a failing `theorem … := rfl` at the first line of the declaration *including its doc comment*;
+    common.failing_decls attributes such a line to the preceding declaration.  Recompute the names of failing C12_*
+    theorems from the error lines with declaration spans that start at the doc comment."""
+    tail = ck.cov.get('lake_output_tail', '')
+    errs = [int(m.group(1)) for m in re.finditer(r'error: MpVerif/C12/Props\.lean:(\d+):\d+:', tail)]
+    if not errs:
+        return failing
+    lines = open(os.path.join(LEAN, 'MpVerif', 'C12', 'Props.lean')).read().split('\n')
+    starts = []       # (first line of the declaration incl. doc comment, name)
+    doc = None
+    for i, ln in enumerate(lines, 1):
+        if ln.startswith('/--') and doc is None:
+            doc = i
+        m = re.match(r'^\s*(?:theorem|def|example|lemma)\s+([\w.\']+)?', ln)
+        if m:
+            starts.append((doc if doc is not None else i, m.group(1) or 'example@%d' % i))
+            doc = None
+        elif ln.strip() and not ln.startswith('/--') and doc is not None and '-/' in ln and not re.match(r'^\s*(theorem|def|example|lemma)', lines[i] if i < len(lines) else ''):
+            pass
+    names = []
+    for L in errs:
+        cur = None
+        for st, nm in starts:
+            if st <= L:
+                cur = nm
+        if cur and cur not in names:
+            names.append(cur)
+    keep = [f for f in failing if not re.match(r'^C12_\w+$', f.split(' ')[0])]
+    return names + keep
 
 
 def model_arms(cases):
@@ -1131,13 +1176,31 @@ def run(ck):
     # 1. regenerate lean/MpVerif/Gen/ObjFilter.lean from the repository's source text (clang typed AST)
     gen = os.path.join(LEAN, 'MpVerif', 'Gen', 'ObjFilter.lean')
     trdir = os.path.join(BUILD, 'tr_c12')
-    rc, out, err = sh([sys.executable, os.path.join(VERIF, 'translators', 'gen_objfilter.py'), REPO, gen, trdir], timeout=600)
+    # the translation is a function of these files only; it is re-run whenever any of them (or the translator) changes
+    h = hashlib.sha256()
+    srcs = sorted(glob.glob(os.path.join(REPO, 'include', 'mp', '**', '*.h*'), recursive=True)) + [os.path.join(REPO, 'src', 'solver.cc')] + \
+        sorted(glob.glob(os.path.join(VERIF, 'translators', '*.py')))
+    for f in srcs:
+        h.update(f.encode() + b'\0' + open(f, 'rb').read())
+    key = h.hexdigest()
+    keyf = os.path.join(trdir, 'inputs.sha256')
+    cached = os.path.exists(keyf) and os.path.exists(gen) and os.path.exists(os.path.join(trdir, 'objfilter_sig.json')) and \
+        open(keyf).read().split() == [key, hashlib.sha256(open(gen, 'rb').read()).hexdigest()]
+    if cached:
+        rc, out, err = 0, 'generated definitions up to date (same source text and translator as in the last run)', ''
+    else:
+        rc, out, err = sh([sys.executable, os.path.join(VERIF, 'translators', 'gen_objfilter.py'), REPO, gen, trdir], timeout=600)
+        if rc == 0:
+            open(keyf, 'w').write(key + ' ' + hashlib.sha256(open(gen, 'rb').read()).hexdigest())
+        elif os.path.exists(keyf):
+            os.remove(keyf)
     ck.log((out.strip() or err.strip())[-300:])
     translator_ok = rc == 0
     failing = []
     # 2. proof obligations (selection theorems about the hand model + generated = hand model) and axiom audit
     proof_ok, failing = ck.proof_stage('MpVerif.C12.Props', 'MpVerif/C12/Props.lean', 'C12_',
                                        ['MpVerif/C12/*.lean', 'MpVerif/Gen/ObjFilter.lean'], expect_min=N_THEOREMS)
+    failing = refine_failing(ck, failing)
     if not translator_ok:
         failing = ['translator: ' + (out + err).strip()[-400:]] + failing
         proof_ok = False
